@@ -257,8 +257,13 @@ func (s *CDX) dependencies(ctx context.Context, bom *sbom.Document) ([]cdx.Depen
 				if _, ok := state.addedDict[targetID]; ok {
 					continue
 				}
+				// Never nest a component under itself or one of its descendants
+				if state.isContainedIn(e.From, targetID) {
+					continue
+				}
 				state.addedDict[targetID] = struct{}{}
 				state.children[e.From] = append(state.children[e.From], targetID)
+				state.parents[targetID] = e.From
 			}
 
 		case sbom.Edge_dependsOn:
@@ -457,6 +462,7 @@ type serializerCDXState struct {
 	componentsDict map[string]*cdx.Component
 	rootID         string
 	children       map[string][]string
+	parents        map[string]string
 }
 
 func newSerializerCDXState() *serializerCDXState {
@@ -464,7 +470,19 @@ func newSerializerCDXState() *serializerCDXState {
 		addedDict:      map[string]struct{}{},
 		componentsDict: map[string]*cdx.Component{},
 		children:       map[string][]string{},
+		parents:        map[string]string{},
 	}
+}
+
+// isContainedIn returns true if id is container or one of the components
+// it is (transitively) nested in.
+func (s *serializerCDXState) isContainedIn(id, container string) bool {
+	for ok := true; ok; id, ok = s.parents[id] {
+		if id == container {
+			return true
+		}
+	}
+	return false
 }
 
 // nestComponents copies every contained component into its container,
